@@ -16,12 +16,15 @@ impl BoxedUint {
     /// Panics if `rhs` has a larger precision than `self`.
     #[inline]
     pub fn adc_assign(&mut self, rhs: impl AsRef<[Limb]>, mut carry: Limb) -> Limb {
-        debug_assert!(self.bits_precision() >= (rhs.as_ref().len() as u32 * Limb::BITS));
-
         for i in 0..self.nlimbs() {
             let (limb, b) = self.limbs[i].adc(*rhs.as_ref().get(i).unwrap_or(&Limb::ZERO), carry);
             self.limbs[i] = limb;
             carry = b;
+        }
+
+        // Limbs of `rhs` beyond the precision of `self` cannot be added: report them as a carry.
+        for limb in rhs.as_ref().iter().skip(self.nlimbs()) {
+            carry = carry | Limb(limb.is_nonzero().if_true_word(1));
         }
 
         carry
